@@ -227,7 +227,7 @@ def damaged_decodes(rng, runner, n, quick=True):
             continue
         for _ in range(3):
             kind = rng.choice(kinds)
-            flag, nsub, ds, b4 = c05.mutate4(rng, kind, ed, int(enc[0]), int(enc[1]), list(descs), s4)
+            flag, nsub, ds, b4 = c05.mutate4(rng, kind, ed, int(enc[0]), int(enc[1]), list(descs), s4, *P[s.meta["tables"]])
             if not ds:
                 continue
             nsub = min(nsub, 300)      # the announced count is work for the decoder (C05's subject), not ownership
@@ -239,7 +239,7 @@ def damaged_decodes(rng, runner, n, quick=True):
 
 # ----------------------------------------------------------------------------- tie
 
-OBSERVED = ("own.tload", "own.tmerge", "own.mnew", "own.mload", "own.mcopy", "own.dnew", "own.dsub", "own.dexpand", "own.dfill",
+OBSERVED = ("own.tload", "own.tmerge", "own.mnew", "own.madd", "own.mload", "own.mcopy", "own.dnew", "own.dsub", "own.dexpand", "own.dfill",
             "own.dmerge", "own.enc", "own.gwrite", "own.gread", "own.dec", "own.extract", "own.dumpload", "own.bset", "own.bcut",
             "own.bflip", "own.bget", "own.dfactors", "own.dhdr", "own.store", "own.lnew", "own.llocal")
 
